@@ -20,7 +20,7 @@ def closure(ctx, exe, esz, hasx, maxn, props):
 
 def vec_line(o):
     op = o["op"]
-    kind = {"n": 0, "max": 1, "maxdiv": 2}
+    kind = {"n": 0, "max": 1, "maxdiv": 2, "pow": 3}
     if op in ("reserve", "resize"):
         return f"{0 if op == 'reserve' else 1} {kind[o['t']['k']]} {o['t']['n']} {0 if o['a'] else 1}"
     if op == "shrink": return f"2 {0 if o['a'] else 1}"
